@@ -24,6 +24,9 @@ ID_BOUNDS = sorted(set(sum([[a - 1, a, b, b + 1] for a, b in [
     (0x37F, 0x1FFF), (0x200C, 0x200D), (0x2070, 0x218F), (0x2C00, 0x2FEF), (0x3001, 0xD7FF), (0xF900, 0xFDCF),
     (0xFDF0, 0xFFFD), (0xB5, 0xB5), (0xB9, 0xB9), (0xB2, 0xB3), (0xB0, 0xB0), (0xBC, 0xBE), (0x30, 0x39), (0x5F, 0x5F),
     (0x2D, 0x2D), (0xB7, 0xB7), (0x300, 0x36F), (0x203F, 0x2040)]], [])))
+# identifier characters that are also White_Space (U+1680) and other space-like neighbours: the semantic name
+# rules (Commodity::from / AccountTreeNode::from) refuse what the grammar lets through
+ID_BOUNDS = sorted(set(ID_BOUNDS + [0x167F, 0x1680, 0x1681, 0x2028, 0x3000, 0xA0, 0x85, 0x200B]))
 ID_BOUNDS = [c for c in ID_BOUNDS if not (0xD800 <= c <= 0xDFFF) and c not in (0x0A, 0x0D)]
 WS_CHARS = [0x09, 0x0B, 0x0C, 0x20, 0x85, 0xA0, 0x1680, 0x2000, 0x200A, 0x2028, 0x2029, 0x202F, 0x205F, 0x3000,
             0x1F, 0x84, 0x86, 0x9F, 0xA1, 0x167F, 0x180E, 0x1FFF, 0x200B, 0x2027, 0x202A, 0x2030, 0x2060, 0x2FFF, 0x3001, 0xFEFF]
@@ -368,7 +371,7 @@ def gen_cases(run, n):
             elif where == 1:
                 p["acc"] = "x" + cp + ":y"
             elif where == 2:
-                p["acc"] = "x:" + cp + "y"
+                p["acc"] = r.choice(["x:" + cp + "y", "x:y" + cp, "x:" + cp + "y:z", "x:y" + cp + "z:w", "x:" + cp])
             elif where == 3:
                 t["tags"] = ["t" + cp, cp + "t"][r.randint(0, 1):][:1]
             else:
